@@ -47,10 +47,19 @@ impl Visitor<Diagnostic> for RuleDeclSubrangeLimits {
     type Value = ();
 
     fn visit_subrange(&mut self, node: &Subrange) -> Result<(), Diagnostic> {
-        let minimum: i128 = node.start.clone().try_into().expect("Value in range i128");
-        let maximum: i128 = node.end.clone().try_into().expect("Value in range i128");
+        // Compare by sign and magnitude because the magnitude of a limit can be
+        // larger than any primitive signed integer can hold.
+        let (min_neg, min_mag) = (node.start.is_neg, node.start.value.value);
+        let (max_neg, max_mag) = (node.end.is_neg, node.end.value.value);
+        let is_less = match (min_neg, max_neg) {
+            (false, false) => min_mag < max_mag,
+            (true, true) => min_mag > max_mag,
+            // negative zero is not less than zero
+            (true, false) => !(min_mag == 0 && max_mag == 0),
+            (false, true) => false,
+        };
 
-        if minimum >= maximum {
+        if !is_less {
             self.diagnostics.push(
                 Diagnostic::problem(
                     Problem::SubrangeMinStrictlyLessMax,
